@@ -107,6 +107,12 @@ def main():
                                   "VERIF_REPO=<worktree> ./check %s quick from a private copy of /verif" % " / ".join([pid] + extra),
                                   "git checkout -- . in the worktree"]})
     try:
+        prev = json.load(open(os.path.join(dst, "meta.json")))
+        if prev.get("history") and not meta.get("history"):
+            meta["history"] = prev["history"]          # notes of earlier rounds (what was strengthened) survive a re-run
+    except Exception:
+        pass
+    try:
         fp = json.load(open(os.path.join(VERIF, "seeded", "first_pass.json"))).get("%s-%s" % (pid, k))
         if fp:
             meta["history"] = "round %s, first pass (before the streams were strengthened for this round): %s" % (fp["round"], fp["first_pass"])
